@@ -218,11 +218,11 @@ func runVar(rng *rand.Rand) (viols []viol, st runStats) {
 	}
 	// writes that do not return the previous value: at most two per run, so that the chain stays uniquely
 	// reconstructible (a segment starts at 0, one ends at Get())
-	unknownMode := []string{"none", "init", "init", "inherit", "derive"}[rng.Intn(5)]
+	unknownMode := []string{"none", "init", "init", "inherit", "derive", "toggle"}[rng.Intn(6)]
 	nUnknown := 1 + rng.Intn(2)
-	if unknownMode == "init" {
+	if unknownMode == "init" || unknownMode == "toggle" {
 		for k := 0; k < nUnknown; k++ {
-			wplans[0][rng.Intn(len(wplans[0]))].Kind = "init"
+			wplans[0][rng.Intn(len(wplans[0]))].Kind = unknownMode
 		}
 	}
 	srcYields := []int{rng.Intn(40), rng.Intn(40)}
@@ -251,6 +251,7 @@ func runVar(rng *rand.Rand) (viols []viol, st runStats) {
 	tailWrites := 1 + rng.Intn(2)
 	v := reactive.NewVariable[int]()
 	var ops []vop
+	var resets []func() // reset functions returned by ToggleValue (writer 0 and the tail); invoked after everything else
 	var pn panics
 	start := make(chan struct{})
 	var wg sync.WaitGroup
@@ -272,6 +273,9 @@ func runVar(rng *rand.Rand) (viols []viol, st runStats) {
 					o.New = val
 				case "init":
 					v.Init(val)
+					o.New, o.Unknown = val, true
+				case "toggle":
+					resets = append(resets, v.ToggleValue(val)) // only writer 0 has such steps
 					o.New, o.Unknown = val, true
 				case "compute":
 					seen := 0
@@ -382,13 +386,39 @@ func runVar(rng *rand.Rand) (viols []viol, st runStats) {
 			o.Changed = o.Prev != o.New
 			tl = append(tl, o)
 		}
+		// last write: ToggleValue (sequential here, so the value it replaces is known); its reset follows the checks' cut
+		val := (W+1)*100000 + 99
+		o := vop{Kind: "toggle", W: W, New: val, Prev: v.Get(), Changed: true}
+		o.Call = tick()
+		resets = append(resets, v.ToggleValue(val))
+		o.Ret = tick()
+		tl = append(tl, o)
 		wlogs = append(wlogs, tl, srclog)
 	}()
 	st.add("redundant_unsubscribe_calls", int(redundantUnsubs.Swap(0)))
 	final := v.Get()
+	// postlude: the reset functions of ToggleValue write the zero value: every subscription still registered is told
+	// (final -> 0) exactly once, the others nothing; the main checks below see the logs as they were before it
+	cut := map[*vsub]int{}
+	for s := range sublogs {
+		for _, sb := range sublogs[s] {
+			cut[sb] = len(sb.log)
+		}
+	}
+	func() {
+		defer pn.guard("toggle reset")
+		for i := len(resets) - 1; i >= 0; i-- {
+			resets[i]()
+		}
+	}()
+	afterReset := v.Get()
 
 	if len(pn.rec) > 0 {
 		viols = append(viols, viol{"var/panic", "panic inside a reactive.Variable operation: " + pn.rec[0].Value, pn.rec})
+		return
+	}
+	if afterReset != 0 {
+		viols = append(viols, viol{"var/toggle-reset/value-not-zero", fmt.Sprintf("the reset function returned by ToggleValue was called but Get() = %d", afterReset), nil})
 		return
 	}
 	for _, l := range wlogs {
@@ -475,12 +505,22 @@ func runVar(rng *rand.Rand) (viols []viol, st runStats) {
 		for _, sb := range sublogs[s] {
 			st.subs++
 			sb.UnsubRetFinal = sb.unsubRet.Load()
-			log := sb.log
+			log := sb.log[:cut[sb]]
+			extra := sb.log[cut[sb]:]
 			st.callbacks += len(log)
 			dump := func() any {
-				return map[string]any{"subscription": map[string]any{"id": sb.ID, "flag": sb.Flag, "subCall": sb.SubCall, "subRet": sb.SubRet, "unsub": sb.Unsub, "unsubCall": sb.UnsubCall, "unsubRet": sb.UnsubRetFinal}, "callbacks": log, "writes": ops, "final": final}
+				return map[string]any{"subscription": map[string]any{"id": sb.ID, "flag": sb.Flag, "subCall": sb.SubCall, "subRet": sb.SubRet, "unsub": sb.Unsub, "unsubCall": sb.UnsubCall, "unsubRet": sb.UnsubRetFinal}, "callbacks": log, "callbacks_of_toggle_reset": extra, "writes": ops, "final": final}
 			}
 			bad := func(fp, what string) { viols = append(viols, viol{fp, what, dump()}) }
+			st.add("toggle_reset_deliveries", len(extra))
+			if sb.Unsub && len(extra) > 0 && sb.afterUnsub.Load() == 0 {
+				bad("var/callback-after-unsubscribe", "the reset of ToggleValue, called after everything else, reached an unsubscribed subscription")
+				continue
+			}
+			if !sb.Unsub && (len(extra) != 1 || extra[0].Prev != final || extra[0].New != 0) {
+				bad("var/toggle-reset/not-delivered-once", fmt.Sprintf("ToggleValue's reset changed %d -> 0; the registered subscription received %d callbacks for it: %v", final, len(extra), extra))
+				continue
+			}
 			// overlap with a changing write
 			for _, e := range edges {
 				if e.Call < sb.SubRet && e.Ret > sb.SubCall {
@@ -588,6 +628,7 @@ type sop struct {
 	RetAdd, RetDel uint32
 	Full           bool // RetAdd/RetDel are the complete applied mutations
 	Inherited      bool // a write to the source of a DerivedSet: what it applies to the derived set is not returned
+	NoRet          bool // the write returns nothing at all (Clear)
 }
 
 type scb struct {
@@ -662,7 +703,7 @@ type setStep struct {
 	Yield int
 }
 
-var setKinds = []string{"add", "delete", "addall", "deleteall", "apply", "applyov", "toggle", "cempty", "replace"}
+var setKinds = []string{"add", "delete", "addall", "deleteall", "apply", "applyov", "toggle", "cempty", "replace", "clear"}
 
 func runSet(rng *rand.Rand) (viols []viol, st runStats) {
 	W := 1 + rng.Intn(4)
@@ -808,6 +849,9 @@ func runSet(rng *rand.Rand) (viols []viol, st runStats) {
 		case "replace":
 			o.RetDel = maskOf(set.Replace(setOf(stp.A)))
 			o.Full = false
+		case "clear":
+			set.Clear()
+			o.Full, o.NoRet = false, true
 		}
 		o.Ret = tick()
 		return o
@@ -910,6 +954,7 @@ func runSet(rng *rand.Rand) (viols []viol, st runStats) {
 
 	// ---- exact model in single-writer runs
 	modelAfter := map[*sop]uint32{}
+	modelEff := map[*sop]bool{} // single-writer runs: the write changed the contents
 	if W == 1 && !derived {
 		cur := initial
 		for _, o := range ops {
@@ -936,13 +981,17 @@ func runSet(rng *rand.Rand) (viols []viol, st runStats) {
 			case "replace":
 				expDel = before &^ o.A
 				cur = o.A
+			case "clear":
+				expDel = before
+				cur = 0
 			}
 			modelAfter[o] = cur
+			modelEff[o] = cur != before
 			if o.Full && (o.RetAdd != expAdd || o.RetDel != expDel) {
 				viols = append(viols, viol{"set/" + o.Kind + "/returned-mutation-wrong", fmt.Sprintf("%s on %s returned added=%s deleted=%s, the actual change is added=%s deleted=%s", o.Kind, mstr(before), mstr(o.RetAdd), mstr(o.RetDel), mstr(expAdd), mstr(expDel)), map[string]any{"initial": initial, "ops": ops}})
 				return
 			}
-			if !o.Full && (o.RetDel&^before != 0 || expDel&^o.RetDel != 0) {
+			if !o.Full && !o.NoRet && (o.RetDel&^before != 0 || expDel&^o.RetDel != 0) {
 				viols = append(viols, viol{"set/replace/returned-set-wrong", fmt.Sprintf("Replace(%s) on %s returned %s which is not between the removed elements %s and the previous contents", mstr(o.A), mstr(before), mstr(o.RetDel), mstr(expDel)), map[string]any{"initial": initial, "ops": ops}})
 				return
 			}
@@ -1055,7 +1104,7 @@ func runSet(rng *rand.Rand) (viols []viol, st runStats) {
 					ok = false
 					break
 				}
-				if !op.Full && !op.Inherited && cb.Del&^op.RetDel != 0 {
+				if !op.Full && !op.Inherited && !op.NoRet && cb.Del&^op.RetDel != 0 {
 					bad("set/replace/callback-deletes-more-than-returned", fmt.Sprintf("Replace returned %s but reported deleted=%s", mstr(op.RetDel), mstr(cb.Del)))
 					ok = false
 					break
@@ -1076,6 +1125,9 @@ func runSet(rng *rand.Rand) (viols []viol, st runStats) {
 					eff = false
 					if W == 1 && !derived {
 						eff = o.RetDel != 0 // Replace that removed something
+						if o.NoRet {
+							eff = modelEff[o] // Clear of a non-empty set
+						}
 					}
 				}
 				if eff && o.Call > sb.SubRet && (!sb.Unsub || o.Ret < sb.UnsubCall) && !seen[o] {
@@ -1123,8 +1175,8 @@ type evWrite struct {
 	Unknown    bool // writes true without telling whether it was the first
 }
 
-var evFalseKinds = []string{"set-false", "compute-false", "init-false", "toggle-reset", "defaultto-false", "inherit-false"}
-var evTrueKinds = []string{"trigger", "set-true", "compute-true", "init-true", "defaultto-true", "inherit-true"}
+var evFalseKinds = []string{"set-false", "compute-false", "init-false", "toggle-reset", "defaultto-false", "inherit-false", "derive-false"}
+var evTrueKinds = []string{"trigger", "set-true", "compute-true", "init-true", "defaultto-true", "inherit-true", "derive-true"}
 
 func doEvWrite(e reactive.Event, kind string) (w evWrite) {
 	w.Kind = kind
@@ -1161,6 +1213,12 @@ func doEvWrite(e reactive.Event, kind string) (w evWrite) {
 	case "inherit-false":
 		src := reactive.NewVariable[bool]()
 		e.InheritFrom(src)() // copies false, then unsubscribes
+	case "derive-true", "derive-false":
+		src := reactive.NewVariable[bool]().Init(kind == "derive-true")
+		e.DeriveValueFrom(reactive.NewDerivedVariable[bool](func(_ bool, x bool) bool { return x }, src))()
+		if kind == "derive-true" {
+			w.True, w.Unknown = true, true
+		}
 	}
 	w.Ret = tick()
 	return
@@ -1233,7 +1291,7 @@ func runEvent(rng *rand.Rand) (viols []viol, st runStats) {
 	}
 	// false writes before anything is triggered must not matter either
 	for i, n := 0, rng.Intn(3); i < n; i++ {
-		pure := []string{"set-false", "compute-false", "init-false", "defaultto-false", "inherit-false"} // (toggle-reset writes true first: not here)
+		pure := []string{"set-false", "compute-false", "init-false", "defaultto-false", "inherit-false", "derive-false"} // (toggle-reset writes true first: not here)
 		record(doEvWrite(e, pure[rng.Intn(len(pure))]))
 	}
 	start := make(chan struct{})
@@ -1679,7 +1737,7 @@ func run(c *vf.Ctx) {
 		}
 		return
 	}
-	c.SetRule("one evaluation = one run: a fresh reactive Variable / Set / Event driven by 1-4 seeded writer goroutines (Set, Compute, DefaultTo, Init, writes arriving through InheritFrom/DeriveValueFrom, readers holding Variable.Read; on events every write method with true and false around and after Trigger; Add, Delete, AddAll, DeleteAll, Apply, Compute, Replace; Trigger) racing with 1-6 goroutines that subscribe and unsubscribe at seeded points (with/without triggerWithInitialZeroValue, slow callbacks; unsubscribe functions are called 1-3 times, redundant calls sequentially or from other goroutines), followed by tail writes after all subscription activity, checked after join against the writers' own chain / returned mutations / exact single-writer model; runs are distinct by construction (run seed); scenario variants: the derived subscription variants (OnUpdateOnce with/without condition, OnUpdateWithContext, WithValue with/without condition, WithNonEmptyValue, LogUpdates on Variable and Event; Set.WithElements with/without condition) subscribe and unsubscribe on a usually already non-zero value while 1-3 writers hand out unique increasing values, each checked against the writers' chain (one-shot: exactly the first satisfying element of its stream, state at subscription time first); distinct_nontrivial counts runs in which at least one OnUpdate/OnTrigger call overlapped (by logical ticks) a value-changing write")
+	c.SetRule("one evaluation = one run: a fresh reactive Variable / Set / Event driven by 1-4 seeded writer goroutines (Set, Compute, DefaultTo, Init, ToggleValue and its reset, writes arriving through InheritFrom/DeriveValueFrom, readers holding Variable.Read; on events every write method with true and false around and after Trigger; Add, Delete, AddAll, DeleteAll, Apply, Compute, Replace, Clear, Decode; Trigger) racing with 1-6 goroutines that subscribe and unsubscribe at seeded points (with/without triggerWithInitialZeroValue, slow callbacks; unsubscribe functions are called 1-3 times, redundant calls sequentially or from other goroutines), followed by tail writes after all subscription activity, checked after join against the writers' own chain / returned mutations / exact single-writer model; runs are distinct by construction (run seed); scenario variants: the derived subscription variants (OnUpdateOnce with/without condition, OnUpdateWithContext, WithValue with/without condition, WithNonEmptyValue, LogUpdates on Variable and Event; Set.WithElements with/without condition) subscribe and unsubscribe on a usually already non-zero value while 1-3 writers hand out unique increasing values, each checked against the writers' chain (one-shot: exactly the first satisfying element of its stream, state at subscription time first); distinct_nontrivial counts runs in which at least one OnUpdate/OnTrigger call overlapped (by logical ticks) a value-changing write")
 	total := c.Pick(20000, 600000)
 	share := map[string]int{"var": total * 41 / 100, "set": total * 41 / 100, "event": total * 10 / 100, "teardown": total * 8 / 100,
 		"variants": total * 25 / 100} // on top of the original shares
@@ -1712,7 +1770,10 @@ func run(c *vf.Ctx) {
 	c.Require("redundant_unsubscribe_calls", total/2)
 	c.Require("teardown_calls_with_update_in_flight", total/20)
 	c.Require("inherited_writes_racing_direct_writes", total/2)
-	c.Require("writes_without_returned_previous_value", total/10) // Init / InheritFrom / DeriveValueFrom as writers
+	c.Require("writes_without_returned_previous_value", total/10) // Init / ToggleValue / InheritFrom / DeriveValueFrom as writers
+	c.Require("toggle_reset_deliveries", total/10)
+	c.Require("set_writes:clear", total/40) // every exported write entry point of reactive.Set occurs with subscribers attached
+	c.Require("set_writes:decode", total/40)
 	c.Require("event_false_writes_after_trigger", total/10*5)     // every write method with false after Trigger (6 per event run)
 	// scenario "variants": one-shot / with-context / with-value / with-elements subscriptions as first-class subscribers
 	c.Require("once_subscriptions", total/4)
